@@ -204,7 +204,17 @@ impl<'a> Runner<'a> {
                         .map(|d| d.size() as i128)
                         .sum();
                     let delta = da - db;
-                    let tag = if removed > 0 && delta == removed {
+                    // the eviction loop ran in this command (victim choices were taken): its stale
+                    // subtraction is one defect; arithmetic of a plain store/removal is another
+                    let limit = match self.cfg.sut.policy {
+                        Policy::Random(l) => l,
+                        Policy::None => u64::MAX,
+                    };
+                    let storeish = matches!(cmd, Cmd::Store { .. } | Cmd::Concat { .. } | Cmd::Delta { .. });
+                    let evicting = !ap.choice_ns.is_empty() || (storeish && ub > limit);
+                    let tag = if evicting {
+                        "@eviction-loop"
+                    } else if removed > 0 && delta == removed {
                         "+removed-records"
                     } else if delta == old_size && old_size > 0 && ok {
                         "+old-record"
